@@ -14,7 +14,7 @@ from ..ref_circuit import RefCircuit, ScatterError, compare_scatter, impl_scatte
 
 TOL = 1e-9
 
-SUB_NAMES = ["bs2", "u3", "h3mid", "h3io", "h4desc", "h4two", "nest", "lossy", "h2zero", "grp", "h5three"]
+SUB_NAMES = ["bs2", "u3", "h3mid", "h3io", "h4desc", "h4two", "nest", "lossy", "h2zero", "grp", "h5three", "grpplain"]
 
 
 def make_sub(name, env):
@@ -62,6 +62,16 @@ def make_sub(name, env):
         s, sr = make_sub("bs2", env); c.add(s, 1, group=True); r.add(sr, 1)
         s, sr = make_sub("h3io", env); c.add(s, 0); r.add(sr, 0)
         c.ps(2, env.PH[0]); r.ps(2, env.PH[0])
+    elif name == "grpplain":     # no heralds (so it is not unpacked when added): a grouped block at an offset > 0
+        c = lw.Circuit(3); r = RefCircuit(3)
+        s, sr = make_sub("bs2", env); c.add(s, 1, group=True); r.add(sr, 1)
+        c.ps(0, env.PH[1]); r.ps(0, env.PH[1])
+        c.barrier([1, 2])
+    elif name == "bar2":         # holds a barrier (a list of modes that must move with the block)
+        c = lw.Circuit(2); r = RefCircuit(2)
+        c.bs(0, reflectivity=env.R2); r.bs(0, 1, env.R2)
+        c.barrier([0, 1])
+        c.ps(1, env.PH[2]); r.ps(1, env.PH[2])
     elif name == "h5three":      # three heralds (1, 0, 1 photons), one of them in != out: 3 ancillas at once
         u = kernel.haar(5, env.seed + 555)
         c = lw.Unitary(u.copy()); c.herald(1, 1, 1); c.herald(0, 4, 2); c.herald(1, 3, 4)
